@@ -17,6 +17,20 @@ CHECKS = {
             "against the property (Pass A) and the model (Pass B). Exhaustive over the stated range.",
             "TLC/Apalache/Z3 soundness; use of the threshold by certificate code is checked under C02/C08/C09.",
             "DESIGN.md section 6, C20"),
+    "C02": ("model_checking",
+            "TLA+ Cert module (abstract signatures = who really signed what; Verify*/BatchVerify* as coded, Sound* = the property) model-checked by TLC; TLC line-check of verdicts of the real cert.Authority on crafted certificates",
+            "TLC checks on the model that acceptance implies soundness over all small signature lists (negative control: the pre-fix counting rule is refuted). "
+            "Crafted QC/TC/AggQC (honest assemblies via Create*, every structural mutation family, random structures) are instantiated with real keys for "
+            "ECDSA/EdDSA/BLS, n in 1..13, cache on/off, verified by the real Authority of two replicas; TLC judges each verdict against Sound* (Pass A), the "
+            "completeness direction for honest assemblies, the reported high QC, and against the implementation-shaped Verify* (Pass B).",
+            "A single signature check of each scheme is ground truth; BLS aggregates contain only atoms added by the harness.", "DESIGN.md section 6, C02"),
+    "C11": ("model_checking",
+            "TLA+ SigCache module (LRU state machine, key derivation) model-checked by TLC for transparency; TLC state-machine replay of operation sequences run on a cached and an uncached real Authority",
+            "TLC exhausts the cache model over a small request universe and shows cached verdict = uncached verdict in every reachable state (negative control: the "
+            "old key is refuted). Seeded operation sequences (sign, verify, batch-verify, combine, replays with altered message/batch/view/signer labels, capacities "
+            "1..4 and 50, three schemes) run on two real authorities; TLC replays the trace, compares verdicts at every step (Pass A), the uncached verdict with the "
+            "Cert model, and the real LRU list with the model's after every operation (Pass B).",
+            "Signature objects are replayed with entry boundaries intact.", "DESIGN.md section 6, C11"),
     "C19": ("model_checking",
             "TLA+ IDSet module (byte-level Bitfield model vs ideal set) exhausted by TLC; TLC trace validation of operation sequences run on the real Bitfield and real Sign/Combine",
             "TLC exhausts the byte-level model against the ideal set for all insertion orders over boundary ids; operation sequences (exhaustive to a depth over "
